@@ -185,20 +185,32 @@ def manufactured(rep, rng, n):
         def f_np(x, order):
             xa = np.array([x[order[nm]] for nm in names])
             base = 0.5 * float(np.sum(d * (xa - a) ** 2)) + 3.0 + float(cl @ xa)
-            return base + (float(np.sum(np.exp(0.3 * xa))) if kind == "exp" else 0.0)
+            auxv = (x[order[aux["name"]]] - 1.0) ** 2 if aux["name"] is not None else 0.0
+            return base + (float(np.sum(np.exp(0.3 * xa))) if kind == "exp" else 0.0) + auxv
         def g_np(x, order):
             xa = np.array([x[order[nm]] for nm in names])
             g = d * (xa - a) + cl + (0.3 * np.exp(0.3 * xa) if kind == "exp" else 0.0)
             out = np.zeros(len(x))
             for k, nm in enumerate(names):
                 out[order[nm]] = g[k]
+            if aux["name"] is not None:
+                out[order[aux["name"]]] = 2.0 * (x[order[aux["name"]]] - 1.0)
             return out
+        # an auxiliary variable that occurs in the OBJECTIVE only and sorts before every other one; an "objective swap" edit later
+        # replaces it by one that sorts after them: same number of variables, every constraint column shifts
+        aux = {"name": None}
         expr = sum((0.5 * float(d[k]) * (vs[k] - float(a[k])) ** 2 for k in range(1, nv)), 0.5 * float(d[0]) * (vs[0] - float(a[0])) ** 2) + 3.0
         if vector_family:
             # the linear term over a REVERSED view that covers every variable of the problem (weights reversed to match)
             expr = expr + r.choice([lambda: cl[::-1].copy() @ vec[::-1], lambda: vec[::-1] @ cl[::-1].copy(), lambda: cl @ vec])()
         if kind == "exp":
             expr = expr + sum((F.exp(0.3 * v) for v in vs[1:]), F.exp(0.3 * vs[0]))
+        expr_core = expr
+        use_aux = cons_kind in ("eq", "ineq_active", "eq_then_ineq", "two_ineq", "param_ineq_active") and r.random() < 0.6
+        if use_aux:
+            aux_var = Variable("A0_aux")
+            aux["name"] = aux_var.name
+            expr = expr_core + (aux_var - 1.0) ** 2
         P = Problem()
         (P.maximize(-expr) if mx else P.minimize(expr))
         s = float(np.sum(a))
@@ -225,15 +237,22 @@ def manufactured(rep, rng, n):
             if sense == "<=":
                 return [lambda: f <= c, lambda: c >= f, lambda: c - f >= 0, lambda: Constant(c) - f >= 0, lambda: f - c <= 0][k]()
             return [lambda: f >= c, lambda: c <= f, lambda: c - f <= 0, lambda: Constant(c) - f <= 0, lambda: f - c >= 0][k]()
+        def tot(x, o):
+            return float(sum(x[o[nm]] for nm in names))          # the sum over the MODEL's variables (an auxiliary objective variable is not one)
+        def ones_at(x, o):
+            out = np.zeros(len(x))
+            for nm in names:
+                out[o[nm]] = 1.0
+            return out
         from optyx import Parameter as _Par
         pq = _Par(f"pq{i}", 1.0)          # a coefficient the user updates between solves; the reference reads it at call time
         piece = {
             "param_ineq": (lambda: pq * total <= s - 1.0,
-                           lambda o: {"type": "ineq", "fun": lambda x: (s - 1.0) - float(pq.value) * float(np.sum(x)),
-                                      "jac": lambda x: -float(pq.value) * np.ones(len(x))}),
-            "eq": (lambda: spell(total, "==", s - 1.0), lambda o: {"type": "eq", "fun": lambda x: float(np.sum(x)) - (s - 1.0), "jac": lambda x: np.ones(len(x))}),
-            "ineq_active": (lambda: spell(total, "<=", s - 1.0), lambda o: {"type": "ineq", "fun": lambda x: (s - 1.0) - float(np.sum(x)), "jac": lambda x: -np.ones(len(x))}),
-            "ineq_inactive": (lambda: spell(total, "<=", s + 50.0), lambda o: {"type": "ineq", "fun": lambda x: (s + 50.0) - float(np.sum(x)), "jac": lambda x: -np.ones(len(x))}),
+                           lambda o: {"type": "ineq", "fun": lambda x: (s - 1.0) - float(pq.value) * tot(x, o),
+                                      "jac": lambda x: -float(pq.value) * ones_at(x, o)}),
+            "eq": (lambda: spell(total, "==", s - 1.0), lambda o: {"type": "eq", "fun": lambda x: tot(x, o) - (s - 1.0), "jac": lambda x: ones_at(x, o)}),
+            "ineq_active": (lambda: spell(total, "<=", s - 1.0), lambda o: {"type": "ineq", "fun": lambda x: (s - 1.0) - tot(x, o), "jac": lambda x: -ones_at(x, o)}),
+            "ineq_inactive": (lambda: spell(total, "<=", s + 50.0), lambda o: {"type": "ineq", "fun": lambda x: (s + 50.0) - tot(x, o), "jac": lambda x: -ones_at(x, o)}),
             "w_active": (lambda: spell(wexpr, ">=", float(w @ a) + 0.8), lambda o: {"type": "ineq", "fun": lambda x: wdot(x, o) - (float(w @ a) + 0.8), "jac": lambda x: wjac(x, o)}),
         }
         seq = {"none": [], "eq": ["eq"], "ineq_active": ["ineq_active"], "ineq_inactive": ["ineq_inactive"], "bounds_active": [], "bounds_inactive": [],
@@ -327,6 +346,8 @@ def manufactured(rep, rng, n):
             # (lower cuts would contradict the active upper bounds of the upper-bound layouts: those are edited through bounds only)
             edit = r.choice(["bound_edit"] if cons_kind in ("upper_only_active", "one_upper_active") else
                             ["param_update"] if cons_kind == "param_ineq_active" else ["list_cut", "scalar_cut", "bound_edit", "bound_edit"])
+            if use_aux and step == 0:
+                edit = "objective_swap"
             edits_hist[edit] = edits_hist.get(edit, 0) + 1
             if edit == "list_cut":
                 cut = [0.3 + 0.1 * k for k in range(nv)]
@@ -334,6 +355,13 @@ def manufactured(rep, rng, n):
                 for k, nm in enumerate(names):
                     builders.append(lambda o, nm=nm, c=float(a[k]) + cut[k]: {"type": "ineq", "fun": lambda x: x[o[nm]] - c,
                                                                             "jac": lambda x: np.eye(len(x))[o[nm]]})
+            elif edit == "objective_swap":
+                # the objective is replaced by one over another variable set of the SAME size (the auxiliary variable in front leaves,
+                # one at the back enters): the constraints, untouched, now sit at other positions of the solver's vector
+                aux_var2 = Variable("zz_aux")
+                aux["name"] = aux_var2.name
+                expr2 = expr_core + (aux_var2 - 1.0) ** 2
+                (P.maximize(-expr2) if mx else P.minimize(expr2))
             elif edit == "param_update":
                 pq.set([1.5, 0.75, 2.0][step % 3])          # the same Problem, the same callables: the new coefficient must be used
             elif edit == "scalar_cut":
